@@ -137,15 +137,65 @@ func runC04(c *an.Ctx) {
 func loadOrder(c *an.Ctx, ctor *ssa.Function, roles map[string]*fileRole) {
 	p := c.P
 	fi := p.Info(ctor)
-	callOf := func(file string) *ssa.Call {
+	// a loader is called by the constructor directly, or by a wrapper the constructor calls (loadState() calling
+	// several loaders in turn and returning the first error)
+	type step struct {
+		top   *ssa.Call // the call in the constructor
+		inner *ssa.Call // the call of the loader itself (== top for a direct call)
+	}
+	callOf := func(file string) *step {
 		for _, ld := range roles[file].loaders {
 			for _, s := range p.CallSites(ld) {
-				if call, ok := s.(*ssa.Call); ok && call.Parent() == ctor {
-					return call
+				call, ok := s.(*ssa.Call)
+				if !ok {
+					continue
+				}
+				if call.Parent() == ctor {
+					return &step{call, call}
+				}
+				for _, s2 := range p.CallSites(call.Parent()) {
+					if top, ok := s2.(*ssa.Call); ok && top.Parent() == ctor {
+						return &step{top, call}
+					}
 				}
 			}
 		}
 		return nil
+	}
+	succeeded := func(f *an.FuncInfo, at ssa.Instruction, call *ssa.Call) bool {
+		for _, fct := range f.FactsAt(at) {
+			if !fct.Neg && fct.T.K == an.KBin && fct.T.S == "==" {
+				for _, x := range fct.T.A {
+					if x.Val == ssa.Value(call) || (x.K == an.KExt && x.A[0].Val == ssa.Value(call)) {
+						return true
+					}
+				}
+			}
+		}
+		return false
+	}
+	// every nil-error return of the wrapper that contains st.inner is reached only after st.inner succeeded
+	wrapperPropagates := func(st *step) bool {
+		if st.top == st.inner {
+			return true
+		}
+		w := st.inner.Parent()
+		wfi := p.Info(w)
+		n := 0
+		for _, b := range w.Blocks {
+			if len(b.Instrs) == 0 || b == w.Recover {
+				continue
+			}
+			ret, ok := b.Instrs[len(b.Instrs)-1].(*ssa.Return)
+			if !ok || len(ret.Results) == 0 || !isConstTerm(wfi.Term(ret.Results[len(ret.Results)-1]), "nil") {
+				continue
+			}
+			n++
+			if !succeeded(wfi, ret, st.inner) {
+				return false
+			}
+		}
+		return n > 0
 	}
 	order := [][2]string{
 		{"gcaPubKey.dat", "equipment-authorizations.dat"},
@@ -162,19 +212,16 @@ func loadOrder(c *an.Ctx, ctor *ssa.Function, roles map[string]*fileRole) {
 			continue
 		}
 		n++
-		// b dominated by a and by a's success
-		okDom := an.Dominates(a, b)
-		okErr := false
-		for _, f := range fi.FactsAt(b) {
-			if !f.Neg && f.T.K == an.KBin && f.T.S == "==" {
-				for _, x := range f.T.A {
-					if x.Val == ssa.Value(a) || (x.K == an.KExt && x.A[0].Val == ssa.Value(a)) {
-						okErr = true
-					}
-				}
-			}
+		ok := false
+		if a.top == b.top && a.top != a.inner {
+			// both inside the same wrapper: order and success inside it
+			wfi := p.Info(a.inner.Parent())
+			ok = an.Dominates(a.inner, b.inner) && succeeded(wfi, b.inner, a.inner)
+		} else {
+			// b (or its wrapper) dominated by a (or its wrapper) and by its success, and a wrapper reports a's failure
+			ok = an.Dominates(a.top, b.top) && succeeded(fi, b.top, a.top) && wrapperPropagates(a)
 		}
-		c.Check(okDom && okErr, "LOAD-ORDER", ctor, b.Pos(), key, pr[1]+" is loaded only after "+pr[0]+" was loaded successfully (its records are interpreted against that state)", "dominance and err == nil of the earlier loader")
+		c.Check(ok, "LOAD-ORDER", ctor, b.top.Pos(), key, pr[1]+" is loaded only after "+pr[0]+" was loaded successfully (its records are interpreted against that state)", "dominance and err == nil of the earlier loader")
 	}
 	c.Count("LOAD-ORDER", n)
 	c.Floor("LOAD-ORDER", 4)
@@ -229,6 +276,36 @@ func replayRule(c *an.Ctx, roles map[string]*fileRole, construction map[*ssa.Fun
 				continue
 			}
 			at := fi.Term(call.Call.Args[len(call.Call.Args)-1])
+			// second form: a shrinking remainder (for rest := data; len(rest) > 0; rest = rest[80:] { record := rest[:80] ... })
+			if at.K == an.KSlice && len(at.A) == 3 && at.A[0].K == an.KPhi && isConstTerm(at.A[1], "0") && isConstTerm(at.A[2], "80") {
+				if ph, isPhi := at.A[0].Val.(*ssa.Phi); isPhi && len(ph.Edges) == 2 {
+					init, step := false, false
+					for _, e := range ph.Edges {
+						et := fi.Term(e)
+						switch {
+						case et.K == an.KSlice && et.A[0].Key() == at.A[0].Key() && isConstTerm(et.A[1], "80") && isConstTerm(et.A[2], "end"):
+							step = true
+						case et.K == an.KExt || et.K == an.KLoad || et.K == an.KParam:
+							init = true
+						}
+					}
+					nonEmpty := false
+					for _, f := range fi.FactsAt(call) {
+						if !f.Neg && f.T.K == an.KBin && (f.T.S == "<" || f.T.S == "<=") && f.T.A[1].K == an.KLen && f.T.A[1].A[0].Key() == at.A[0].Key() {
+							nonEmpty = true
+						}
+					}
+					desc = "record slice " + short(at.Key()) + " of a remainder that starts as the file contents and loses 80 bytes per iteration: " + fmt.Sprint(init && step) + "; loop runs while the remainder is non-empty: " + fmt.Sprint(nonEmpty)
+					if init && step && nonEmpty {
+						okAll = true
+						if l := innermostLoopOf(loader, call.Block()); l != nil {
+							okExit, why := l.noSilentEarlyExit(fi)
+							c.Check(okExit, "REPLAY", loader, call.Pos(), an.KeyOf(loader, "no-early-exit"), "the record loop of the report loader is left only when all records were visited or by an error that aborts start-up (no break / silent return that drops the remaining records)", why)
+						}
+					}
+				}
+				continue
+			}
 			if at.K != an.KSlice || len(at.A) < 3 || at.A[1].K != an.KBin || at.A[1].S != "*" {
 				continue
 			}
@@ -287,6 +364,9 @@ func monotoneLoad(c *an.Ctx, roles map[string]*fileRole) {
 	pairOK := true
 	nDel := 0
 	for _, fn := range p.FuncsIn("server") {
+		if isAttributedHelper(p, fn) {
+			continue
+		}
 		ops := serverMapOps(p, fn, "GCAServer")
 		for _, op := range ops {
 			if op.field != "equipment" || op.kind != "delete" {
@@ -402,6 +482,9 @@ func errDependsOnShrinkingTable(p *an.Program, fn *ssa.Function) string {
 
 func hasDeleteSite(p *an.Program, field string) bool {
 	for _, fn := range p.FuncsIn("server") {
+		if isAttributedHelper(p, fn) {
+			continue
+		}
 		for _, op := range serverMapOps(p, fn, "GCAServer") {
 			if op.field == field && op.kind == "delete" {
 				return true
